@@ -4,7 +4,8 @@ Decided: memo keys and atomic side tables of the three conversions (F-CACHE); ev
 UxDataArray conversions add their data to a copy; the NaN filter is reduced over all trailing axes in both sibling builders and its indices - which run over 'faces without the antimeridian faces' - are only
 applied to arrays over that same derived space; polygons, face-index maps and data are filtered by the same index sequences per periodic_elements option; the antimeridian predicate is |dlon| >= 180 between
 consecutive vertices of the UNPROJECTED shells; both shell builds of a conversion receive the same longitude shift; shells are closed and padded before gathering.
-no any()/all() on an array of element indices (index 0 is not "none"); the GeoDataFrame path lets antimeridian.fix_polygon repair the winding."""
+no any()/all() on an array of element indices (index 0 is not "none"); the GeoDataFrame path lets antimeridian.fix_polygon repair the winding.
+n_nodes_per_face (where the shells are closed) is stored without a narrowing cast."""
 
 import ast
 
